@@ -40,6 +40,9 @@ def pick_target(rng, txt, maxlen=14):
     return t if t.strip() and '\n' not in t else None
 def variants(rng, t):
     k = len(t) // 2
+    ws = t.split(' ')
+    if len(ws) >= 2 and rng.random() < .2:      # new text repeating material around the change point (prefix and suffix candidates overlap)
+        return rng.choice([ws[0] + ' ' + t, t + ' ' + ws[-1], ' '.join(ws[:-1]) + ' ' + ' '.join(ws[:-1]) + ' ' + ws[-1], ws[0] + ' ' + ws[0] + ' ' + ' '.join(ws[1:])])
     return rng.choice([rng.choice(NEWS), '', t + ' more', 'pre ' + t, t[:k] + 'Q' + t[k:], t[:k], t[k:], t.upper(), '**' + t.strip() + '**', '_it_ ' + t, t + ' ', 'a**b', 'x_y_z'])
 def gen_batch(rng, din, raw, clean, kind='exact'):
     """returns list of (target, new, comment, index)"""
